@@ -136,3 +136,11 @@ Proof.
   - destruct (PyPrelude.all_some (map (interp1d NumR Strict P M) P)); cbn [obind]; reflexivity.
 Qed.
 Print Assumptions C09_rescale_is_model_rescale.
+
+(* a table that went through the wrapper before still carries that object's derived column, scaled for ANOTHER initial pressure:
+   derived columns are recomputed from the current initial pressure, never trusted - the stale column does not enter at all *)
+Theorem C09_stale_scaled_column_is_ignored : forall P M c mu z a stale p_i,
+  flowproperties_init_long_stale P M c mu z stale p_i = flowproperties_init_long P M c mu z p_i /\
+  flowproperties_init_short_stale P M a stale p_i = flowproperties_init_short P M a p_i.
+Proof. intros. split; reflexivity. Qed.
+Print Assumptions C09_stale_scaled_column_is_ignored.
